@@ -20,13 +20,13 @@ Import ListNotations.
 """
 
 CL = "g14"
-FORMS = ["bare", "attr", "alias", "wrapped"]
+FORMS = ["bare", "attr", "alias", "wrapped", "inarg", "inarg-attr"]
 
 
 def render_graph(pkg, name, kinds, edges, forms, hidden):
     """kinds: list of 'm'/'p'; edges: set of (i, j); node i lives in module <name> unless form 'attr' targets,
     which are re-exported through the sibling module <name>_x"""
-    lines = ["import functools", "from twosigma.memento import memento_function", "from . import %s_x" % name, ""]
+    lines = ["import functools", "from twosigma.memento import memento_function", "from . import %s_x" % name, "", "def _idn(v):", "    return v", ""]
     n = len(kinds)
     # definitions first, bodies refer to names resolved at call time
     for i, k in enumerate(kinds):
@@ -41,6 +41,11 @@ def render_graph(pkg, name, kinds, edges, forms, hidden):
         for j in range(n):
             if (i, j) in edges:
                 form = forms.get((i, j), "bare")
+                if form in ("inarg", "inarg-attr"):
+                    # the reference sits in the argument of a call whose result is then dereferenced: _idn(n(x - 1)).real
+                    inner = ("n%d" % j) if form == "inarg" else ("%s_x.n%d" % (name, j))
+                    lines.append("    r += _idn(%s(x - 1)).real" % inner)
+                    continue
                 ref = {"bare": "n%d" % j, "attr": "%s_x.n%d" % (name, j), "alias": "al%d_%d" % (i, j), "wrapped": "wr%d_%d" % (i, j)}[form]
                 lines.append("    r += %s(x - 1)" % ref)
         lines.append("    if fa is not None:")
@@ -286,7 +291,7 @@ def run(tier, seed):
         rep.coverage.update({
             "evaluations": len(terms), "distinct_nontrivial": len(set(terms)), "exhaustive": True,
             "rule": "ALL reference graphs on 1..%d nodes (every kind assignment with at least one memento function x every edge set, self loops and cycles included), plus random graphs on 3-6 nodes with reference forms "
-                    "{bare, module attribute, alias, decorator-wrapped} and hidden dynamic call edges; one case per memento root" % exhaustive_n,
+                    "{bare, module attribute, alias, decorator-wrapped, inside the argument of a dereferenced call} and hidden dynamic call edges; one case per memento root" % exhaustive_n,
             "stats": stats, "traces_validated_against_impl": len(terms),
         })
         rep.assumptions = ["plain helper functions live in the package of the memento functions (package scope)", "name resolution (bare / attribute / alias / wrapped) is performed by the implementation on live objects; the model receives resolved edges"]
